@@ -11,6 +11,12 @@ CLAIMED = {
             note="Trusted: Coq kernel, vm_compute, the ast translator, ExtrOcamlBasic extraction + driver, harness. gauss VALUES (libm) are not modelled, only draw bookkeeping/definedness. "
                  "binary64 random(min,max) is proved only as refuted at the top state (known finding) and exact-rational in general; floats for integer/half-integer bounds are exact and compared exactly.",
             technique="Coq proof over translator-generated kernel + extracted-model correspondence", design="§5 C05"),
+ "C20": dict(text="Coq theorem pows_full (C20/Props.v): for any number of features, any degree and any multiplication (numbers or key concatenation) level d of the modelled _pows "
+                  "is exactly the products of all combinations with replacement, once each, in lexicographic order (induction with the offsets invariant), cross is the full outer product. "
+                  "The offsets update the source uses is recognised by the translator; the whole of encode (dense, sparse, string-valued, scalar, None and absent namespaces, constants) is tied by "
+                  "correspondence with the extracted model and checked against an independent itertools oracle.",
+            note="Trusted: Coq kernel, translator (textual recognition of the _pows loop, fail closed), extraction+driver, harness. encode's namespace normalisation (make_dict/handle_str) and dict overwrite semantics are modelled/tied by correspondence only; values are exact integers (binary64 rounding not modelled).",
+            technique="Coq proof (induction, offsets invariant) + translator flag + extracted-model correspondence", design="§5 C20"),
 }
 NA_REASON = "check not built yet in this revision (planned, see DESIGN.md §8); no claim is made"
 def main():
